@@ -6,7 +6,10 @@ MC_AcceptMax == {<<FALSE, 0>>, <<TRUE, 1>>}
 MC_AcceptMaxBig == {<<FALSE, 0>>, <<TRUE, 0>>, <<TRUE, 1>>, <<TRUE, 2>>}
 MC_NoHits == {}
 \* u1 finds something with query "qhit", so does Me (own search); nobody finds anything with "qmiss"
-MC_Hits == {<<"u1", "qhit">>, <<"me", "qhit">>}
+\* "qphr": a query that contains an excluded phrase and still has matches that do not; "qgone": a query
+\* whose matches all contain an excluded phrase
+MC_Hits == {<<"u1", "qhit">>, <<"me", "qhit">>, <<"u1", "qphr">>, <<"me", "qphr">>, <<"u1", "qgone">>, <<"me", "qgone">>}
+MC_HitsX == {<<"u1", "qhit">>, <<"me", "qhit">>, <<"u1", "qphr">>, <<"me", "qphr">>}
 
 \* Generator configurations (simulation, edge cover) start from a small tree instead of the empty
 \* state, so that the bounded behaviours spend their events on the interesting part.  Every such
@@ -25,7 +28,7 @@ ShapeInit(par, kids) ==
     /\ pc = [p \in P |-> "idle"] /\ wait = [p \in P |-> {}]
     /\ addPend = [p \in P |-> None] /\ slow = [p \in P |-> FALSE]
     /\ spc = "idle" /\ rwait = {} /\ nev = 0
-    /\ slog = <<>> /\ fwd = [p \in P |-> <<>>] /\ replies = <<>>
+    /\ slog = <<>> /\ fwd = [p \in P |-> <<>>] /\ replies = <<>> /\ phr = FALSE
 GenInit == \E par \in {None, "p1"}, kids \in SUBSET (P \ {"p1"}) : ShapeInit(par, kids)
 GenSpec == GenInit /\ [][Next]_vars
 =============================================================================
